@@ -45,6 +45,12 @@ pub enum Mutation {
     ForeignWriter,
     /// signature truncated / extended
     SignatureLength { len: u32 },
+    /// a forged block section (arbitrary value, no nodes) added to a proof that has none
+    AddBlockSection { index: u64, copy_hash_nodes: bool },
+    /// the honest hash section's node list re-used as a hash section for another index
+    AddHashSection { delta: i64 },
+    /// a seek section with forged nodes added
+    AddSeekSection { nodes: u32 },
 }
 
 pub fn node_parts(n: &Node) -> (u64, u64, Vec<u8>) {
@@ -263,6 +269,41 @@ pub fn mutate(honest: &Proof, m: &Mutation, w: &World) -> Option<Proof> {
             u.signature = w.key.sign(&signable).to_bytes().to_vec();
         }
         Mutation::ForeignWriter => return None, // built separately (needs a second core)
+        Mutation::AddBlockSection { index, copy_hash_nodes } => {
+            if p.block.is_some() {
+                return None;
+            }
+            let len = w.truth.len().max(1);
+            let idx = match &p.hash {
+                // the block whose leaf the hash section is about, when there is one
+                Some(h) if *copy_hash_nodes => h.index / 2,
+                _ => index % len,
+            };
+            let nodes = match (&p.hash, copy_hash_nodes) {
+                (Some(h), true) => h.nodes.iter().skip(1).cloned().collect(),
+                _ => vec![],
+            };
+            p.block = Some(DataBlock { index: idx, value: b"forged block".to_vec(), nodes });
+        }
+        Mutation::AddHashSection { delta } => {
+            if p.hash.is_some() {
+                return None;
+            }
+            let b = p.block.as_ref()?;
+            let idx = add(b.index * 2, *delta)?;
+            p.hash = Some(DataHash { index: idx, nodes: b.nodes.clone() });
+        }
+        Mutation::AddSeekSection { nodes } => {
+            if p.seek.is_some() {
+                return None;
+            }
+            let mut v = vec![];
+            for k in 0..*nodes {
+                let j = (2 * k as u64) % (2 * w.truth.len()).max(1);
+                v.push(Node::new(j, crate::rng::Rng::new(j, &[77]).bytes(32), 3));
+            }
+            p.seek = Some(DataSeek { bytes: 1, nodes: v });
+        }
     }
     if &p == honest {
         return None;
@@ -308,6 +349,19 @@ pub fn all_mutations(p: &Proof) -> Vec<Mutation> {
         v.push(Mutation::SignatureLength { len: 65 });
     }
     v.push(Mutation::Fork { delta: 1 });
+    if p.block.is_none() {
+        v.push(Mutation::AddBlockSection { index: 0, copy_hash_nodes: true });
+        v.push(Mutation::AddBlockSection { index: 1, copy_hash_nodes: false });
+        v.push(Mutation::AddBlockSection { index: 3, copy_hash_nodes: false });
+    }
+    if p.hash.is_none() && p.block.is_some() {
+        v.push(Mutation::AddHashSection { delta: 0 });
+        v.push(Mutation::AddHashSection { delta: 1 });
+    }
+    if p.seek.is_none() {
+        v.push(Mutation::AddSeekSection { nodes: 1 });
+        v.push(Mutation::AddSeekSection { nodes: 2 });
+    }
     for sec in SECS {
         let n = match sec {
             Sec::Block => p.block.as_ref().map(|b| b.nodes.len()),
@@ -596,7 +650,13 @@ pub fn rand_mutation(r: &mut crate::rng::Rng) -> Mutation {
         19 => Mutation::InsertNode { sec, idx },
         20 => Mutation::RemoveSection { sec },
         21 => Mutation::SubstituteBlock { same_len: r.chance(1, 2) },
-        22 => if r.chance(1, 2) { Mutation::ForeignSignature } else { Mutation::StaleSignature },
+        22 => match r.below(5) {
+            0 => Mutation::ForeignSignature,
+            1 => Mutation::StaleSignature,
+            2 => Mutation::AddBlockSection { index: r.below(16), copy_hash_nodes: r.chance(1, 2) },
+            3 => Mutation::AddHashSection { delta: r.below(3) as i64 },
+            _ => Mutation::AddSeekSection { nodes: r.range(1, 3) as u32 },
+        },
         _ => Mutation::ForeignWriter,
     }
 }
